@@ -41,3 +41,33 @@ Theorem C11_codes :
     (NoDup (fixed_codes decls) -> NoDup (map snd final)).
 Proof. intros a v H. exact (FrontProofs.valid_codes_sound _ _ (FrontCodes.visit_valid_codes a v H)). Qed.
 Print Assumptions C11_codes.
+
+From YG Require Import Front EmitTranslate.
+Close Scope Z_scope.
+Open Scope nat_scope.
+
+(* the model of the generated translate switch (one case per terminal symbol of the grammar object: token code -> symbol number, default = error): when the terminals' codes are pairwise different (C11_codes) every token code is mapped to its own grammar symbol and every other integer to the error default *)
+Theorem C11_translate :
+  forall (syms : list gsym) (isnt : nat -> bool),
+         NoDup (map fst (translate_cases syms isnt)) ->
+         (forall k : nat,
+          k < length syms ->
+          isnt k = false -> switch (translate_cases syms isnt) (s_value (nth k syms dflt_sym)) = Some k) /\
+         (forall c : Z,
+          (forall k : nat, k < length syms -> isnt k = false -> s_value (nth k syms dflt_sym) <> c) ->
+          switch (translate_cases syms isnt) c = None).
+Proof. exact EmitTranslate.translate_spec. Qed.
+Print Assumptions C11_translate.
+
+From YG Require Import Front EmitTranslate.
+Close Scope Z_scope.
+Open Scope nat_scope.
+
+(* -1 is mapped to the end marker (symbol 1) *)
+Theorem C11_translate_end_marker :
+  forall (v : visited) (isnt : nat -> bool),
+         isnt 1 = false ->
+         NoDup (map fst (translate_cases (symbols_of v) isnt)) ->
+         switch (translate_cases (symbols_of v) isnt) (-1) = Some 1.
+Proof. exact EmitTranslate.translate_end_marker. Qed.
+Print Assumptions C11_translate_end_marker.
